@@ -30,7 +30,9 @@ type c09conv struct {
 
 var c09convs = []c09conv{{"linux", '/', ""}, {"windows", '\\', ""}, {"windows", '\\', "C:"}, {"windows", '\\', "D:"}, {"windows", '\\', `\\host\share`}}
 
-var c09chains = [][]string{{}, {"tmp"}, {"root"}, {"tmp", "root"}, {"tmp/root"}, {"tmp", "rootx"}, {"root", "a b"}, {"tmp", "root", "rootx"}, {"a", "b/c", "."}}
+var c09chains = [][]string{{}, {"tmp"}, {"root"}, {"tmp", "root"}, {"tmp/root"}, {"tmp", "rootx"}, {"root", "a b"}, {"tmp", "root", "rootx"}, {"a", "b/c", "."},
+	// first elements that begin with dots (hidden directories, "..." is an ordinary name), directly on the unrooted file system
+	{".hid"}, {".hid/sub", "a"}, {"...", "root"}, {".", ".hid"}, {"."}, {".", "."}}
 
 var c09elems = []string{"a", "root", "rootx", ".", "..", "", `a\b`, `..\x`, "C:", "tmp"}
 
